@@ -6,6 +6,9 @@ import itertools
 import multiprocessing
 
 META = ['"', '\\', '$', '`', ',', '\n', '\r', '\t', ' ', '>', '<', '[', ']', '{', '}', ':', 'n', 'u', '0', '\x00', '\x1f', 'é', '\U0001F600', 'N', '(', ')']
+LOOKALIKES = ['\nn:1', 'setpoint\nn:21.5 °C', 'a\nd:2020-01-01', '\nh:12:30:00', 'x\nt:2020-01-01T00:00:00Z UTC', 'p\nr:abc dis', '\nm:', '\nz:', '\nx:', '\n-:', 'q\nc:1.0,2.0',
+              'k\nu:http://x', 'k\nb:text/plain', 'k\nx:hex:00', 'n:1\nplain', 's:x\nn:2', 'a\n\nver:"3.0"\nx\n1', 'a"\n1,2,3', 'x","y', 'caf\\u00e9', 'C:\\temp\\u1234', '\\\\u0041',
+              '\\n', '\\"', '\\$', 'a\\', '\\u', '\\u12', '$\\', '`\\`', 'ver:"2.0"', '<<', '>>', ']', '}', 'N\nN', 'T,F', 'r:x\nr:y z']
 META3 = ['"', '\\', '$', '`', ',', '\n', '\r', '>', ']', '}', ':', 'n', 'u', '0', ' ']
 
 
@@ -154,6 +157,9 @@ def bounded(tier, seed):
     strings = [''] + [''.join(t) for n in (1, 2) for t in itertools.product(alphabet if n == 1 else META3, repeat=n)]
     if thorough:
         strings += [''.join(t) for t in itertools.product(META3, repeat=3)]
+    # payloads that LOOK like another document element further in: a later line that is a complete typed JSON scalar, a ZINC cell, a row, a
+    # grid header, an escape the writer itself would produce
+    strings += LOOKALIKES
     rnd = random.Random(seed)
     for _ in range(60 if not thorough else 600):
         strings.append(''.join(rnd.choice(META) for _ in range(rnd.randint(4, 12))))
